@@ -58,7 +58,6 @@ structure Passed (st st' : LoopSt) (len : Nat) (views : List EvView) : Prop wher
   lower : ∀ i, i < st.p.lvlIdx → st'.p.getLvl i = st.p.getLvl i
   zeros : ∀ i, st.p.depth ≤ i → st'.p.getLvl i = Level.zero
   ad : (st'.p.getLvl st.p.lvlIdx).ad = (st.p.getLvl st.p.lvlIdx).ad
-  name : (st'.p.getLvl st.p.lvlIdx).name = (st.p.getLvl st.p.lvlIdx).name
   ev : ∃ new : List Event, st'.ev = new ++ st.ev ∧ new.reverse.map (view st.p.buf) = views
 
 theorem Parser.lvlIdx_of_pos {p : Parser} (h : 1 ≤ p.depth) : p.lvlIdx = p.depth - 1 := by
